@@ -244,9 +244,29 @@ def level1():
     return out
 
 
+def extras():
+    """a few deeper shapes where a bracket decision depends on a grandchild"""
+    c1, c2, c3 = ["cmp", ">", A_, ONE], ["cmp", "<", B_, ONE], ["cmp", "=", A_, B_]
+    return [
+        ["logic", "AND", c1, ["logic", "OR", c2, ["not", c3]]],
+        ["logic", "OR", c1, ["logic", "AND", c2, ["not", c3]]],
+        ["logic", "AND", ["logic", "OR", ["not", c1], c2], c3],
+        ["not", ["logic", "AND", c1, ["logic", "OR", c2, c3]]],
+        ["logic", "AND", c1, ["logic", "OR", c2, ["logic", "AND", c3, ["not", c1]]]],
+        ["arith", "-", A_, ["arith", "-", B_, ["arith", "-", A_, ONE]]],
+        ["arith", "/", A_, ["arith", "/", B_, ["arith", "*", A_, B_]]],
+        ["arith", "*", ["arith", "+", A_, ONE], ["arith", "-", B_, ["arith", "+", A_, ONE]]],
+        ["arith", "-", ["neg", ["arith", "+", A_, B_]], ["neg", ["arith", "-", A_, B_]]],
+        ["case", [[["logic", "OR", c1, ["logic", "AND", c2, c3]], ["arith", "-", A_, ["arith", "-", B_, ONE]]]], ["neg", ["arith", "+", A_, ONE]]],
+    ]
+
+
 def triples():
     kids = level1() + LEAVES
     seen = set()
+    for e in extras():
+        seen.add(repr(e))
+        yield e
     for name, n, mk, fill in TEMPL:
         for pos in range(n):
             for kid in kids:
